@@ -43,11 +43,13 @@ const (
 	// (new kinds are appended here: the numbers are part of stored plans)
 	OpOracleRequest
 	OpOracleResponse
+	OpCrypto
+	OpLedgerRead
 	numOps
 )
 
 var opNames = [...]string{"transferGAS", "transferNEO", "vote", "register", "unregister", "policy", "designate",
-	"deploy", "invoke", "update", "destroy", "payContract", "notary", "claim", "fromValidator", "attrTx", "oracleRequest", "oracleResponse"}
+	"deploy", "invoke", "update", "destroy", "payContract", "notary", "claim", "fromValidator", "attrTx", "oracleRequest", "oracleResponse", "crypto", "ledgerRead"}
 
 // Op is one generated transaction.
 type Op struct {
@@ -97,7 +99,7 @@ func drawOpMix(rt *rapid.T, p2psig bool, mix int) Op {
 func drawOpGeneral(rt *rapid.T, p2psig bool) Op {
 	o := Op{}
 	// weights: storage-heavy and governance ops are the interesting ones
-	w := rapid.IntRange(0, 42).Draw(rt, "opk")
+	w := rapid.IntRange(0, 46).Draw(rt, "opk")
 	switch {
 	case w < 4:
 		o.Kind = OpTransferGAS
@@ -133,6 +135,10 @@ func drawOpGeneral(rt *rapid.T, p2psig bool) Op {
 		o.Kind = OpAttrTx
 	case w < 41:
 		o.Kind = OpOracleRequest
+	case w >= 45:
+		o.Kind = OpCrypto
+	case w >= 43:
+		o.Kind = OpLedgerRead
 	default:
 		// (a response needs a pending request and designated nodes: drawn more often than requests, most are not applicable)
 		o.Kind = OpOracleResponse
@@ -238,6 +244,7 @@ func (kr *keyring) multiSigner(pubs keys.PublicKeys, m int) (neotest.Signer, err
 
 // producer turns operations into signed transactions and blocks on node P.
 type producer struct {
+	dk      *dualKey
 	n       *Node
 	kr      *keyring
 	nonce   uint32
@@ -425,6 +432,16 @@ func (p *producer) buildTx(o Op, extraAttrs []transaction.Attribute) (tx *transa
 				desc = fmt.Sprintf("Oracle.setPrice %d", price)
 				break
 			}
+			if o.Y%4 == 2 {
+				if o.N%2 == 0 {
+					script = callScript(nativehashes.NeoToken, "setGasPerBlock", (o.N%11)*1_0000_0000)
+					desc = fmt.Sprintf("NEO.setGasPerBlock %d", o.N%11)
+				} else {
+					script = callScript(nativehashes.NeoToken, "setRegisterPrice", (1+o.N%1500)*1_0000_0000)
+					desc = fmt.Sprintf("NEO.setRegisterPrice %d", 1+o.N%1500)
+				}
+				break
+			}
 			script = callScript(nativehashes.ContractManagement, "setMinimumDeploymentFee", (5+o.N%10)*100000000)
 			desc = fmt.Sprintf("setMinimumDeploymentFee %d", 5+o.N%10)
 		}
@@ -542,6 +559,10 @@ func (p *producer) buildTx(o Op, extraAttrs []transaction.Attribute) (tx *transa
 		signers = []neotest.Signer{v}
 		script = callScript(nativehashes.GasToken, "transfer", v.ScriptHash(), p.kr.acctHash(o.B), o.N*1000000, nil)
 		desc = fmt.Sprintf("validators->a%d %d GAS", o.B%numAccounts, o.N)
+	case OpCrypto:
+		return p.cryptoTx(o)
+	case OpLedgerRead:
+		script, desc = p.ledgerReadScript(o)
 	case OpOracleRequest:
 		script, desc = p.oracleRequestScript(o)
 	case OpOracleResponse:
